@@ -70,6 +70,11 @@ def gen(rng):
     for n in labels:
         if rng.random() < 0.5:
             h.add_node(n)
+    if rng.random() < 0.35:  # a removal somewhere in the history (internal hyperedge ids get gaps); content unchanged
+        e = rng.choice(list(h.get_edges()))
+        w_ = h.get_weight(e)
+        h.remove_edge(e)
+        h.add_edge(e, weight=w_ if weighted else None)
     return h
 
 
@@ -83,10 +88,32 @@ FORCED = {  # witness inputs of the open findings, re-confirmed on every run thr
 
 
 def run_case(ctx, rng, idx):
+    h = gen(rng)
+    evaluate(ctx, rng, idx, h, 0)
+    if idx not in FORCED and idx % 3 == 0:
+        # the same Hypergraph object fitted again after an in-place edit that keeps node and hyperedge counts
+        from ..mutate import same_count_edit
+
+        edges = list(h.get_edges())
+        old = rng.choice(edges)
+        nodes = list(h.get_nodes())
+        for _ in range(20):
+            new = tuple(sorted(rng.sample(nodes, min(len(nodes), rng.randint(2, 5)))))
+            if not h.check_edge(new):
+                w_ = h.get_weight(old)
+                h.remove_edge(old)
+                h.add_edge(new, weight=w_ if h.is_weighted() else None)
+                ctx.event("re-evaluated-after-in-place-edit")
+                evaluate(ctx, rng, idx, h, 1)
+                break
+
+
+def evaluate(ctx, rng, idx, h, phase):
     from hypergraphx.communities.hypergraph_mt import model as mt
     from hypergraphx.communities.hy_sc.model import HySC
 
-    h = gen(rng)
+    if phase:
+        idx = -1  # never a forced witness on the second pass
     nodes = sorted(h.get_nodes())
     row = {n: i for i, n in enumerate(nodes)}
     edges = [tuple(e) for e in h.get_edges()]
@@ -143,6 +170,11 @@ def run_case(ctx, rng, idx):
             ctx.check("C17:hysc", all(X[i].sum() == 0 for i in iso), "C17:HySC:isolated-node-assigned", lambda: wit(X.tolist()))
         r2 = call(hysc)
         ctx.check("C17:reproducible", not isinstance(r2, _Raised) and np.array_equal(np.asarray(r2), X), "C17:HySC:same-seed-different-result", wit)
+        inst = HySC(seed=seed, n_realizations=3)  # one instance, run twice
+        a = call(quiet, inst.fit, h, K=K)
+        b = call(quiet, inst.fit, h, K=K)
+        ok2 = not isinstance(a, _Raised) and not isinstance(b, _Raised) and np.array_equal(np.asarray(a), np.asarray(b)) and np.array_equal(np.asarray(a), X)
+        ctx.check("C17:reproducible", ok2, "C17:HySC:same-instance-second-run-differs", wit)
 
     # ---------------- Hypergraph-MT with a trace monitor ----------------------------------------------
     trace = {"real": -1, "events": {}, "psi_bad": 0, "em": 0}
